@@ -601,7 +601,7 @@ def run(rep):
     vlib.prelude(rep, cli=True)
     rng = rep.rng
     quick = rep.tier == "quick"
-    nvals = 260 if quick else 6000
+    nvals = 500 if quick else 15000
 
     # ---------------- manifest cases
     cases = []
